@@ -59,8 +59,10 @@ dev_start(dev *d, const fam *f, int ttl)
 {
 	VH_OK(f->dev_in(&d->in));
 	VH_OK(f->dev_out(&d->out));
-	VH_OK(nng_socket_set_int(d->in, NNG_OPT_MAXTTL, ttl));
-	VH_OK(nng_socket_set_int(d->out, NNG_OPT_MAXTTL, ttl));
+	if (ttl > 0) { // (0: the option is set later, when the connections exist)
+		VH_OK(nng_socket_set_int(d->in, NNG_OPT_MAXTTL, ttl));
+		VH_OK(nng_socket_set_int(d->out, NNG_OPT_MAXTTL, ttl));
+	}
 	VH_OK(nng_aio_alloc(&d->aio, dev_cb, d));
 	d->done = 0;
 }
@@ -160,27 +162,35 @@ run_chain(void *arg)
 	// what the statement requires: the i-th receiving socket sees a message that
 	// came over i links / through i-1 devices
 	int must_deliver = 1, must_drop = 0;
+	// ("a message that has already crossed more hops than the receiving socket's MAXTTL is
+	// discarded": arriving at the i-th socket it has crossed i hops, so i > ttl means discard)
 	for (int i = 1; i <= k + 1; i++) {
-		if (i > c->ttl[i - 1])
+		if (i > c->ttl[i - 1]) {
 			must_deliver = 0;
-		if (i - 1 > c->ttl[i - 1])
-			must_drop = 1;
+			must_drop    = 1;
+		}
 	}
 	g_teardown = 0;
 	vh_init(0);
 	nng_socket back, front[2];
 	nng_ctx    cx[2];
+	// the hop limits are configured before anything is connected, or (late) when the whole
+	// topology is wired up, just before the devices start: the limit in force is the
+	// socket's current one either way
+	int late = sched ? 0 : vs_choose(VK_ENV, 2);
 	VH_OK(f->back(&back));
-	VH_OK(nng_socket_set_int(back, NNG_OPT_MAXTTL, c->ttl[k]));
+	if (!late)
+		VH_OK(nng_socket_set_int(back, NNG_OPT_MAXTTL, c->ttl[k]));
 	snprintf(url, sizeof(url), "inproc://c13-%d", k);
 	VH_OK(nng_listen(back, url, NULL, 0));
 	for (int i = k; i >= 1; i--) {
-		dev_start(&D[i], f, c->ttl[i - 1]);
+		dev_start(&D[i], f, late ? 0 : c->ttl[i - 1]);
 		snprintf(url, sizeof(url), "inproc://c13-%d", i - 1);
 		VH_OK(nng_listen(D[i].in, url, NULL, 0));
 		snprintf(url, sizeof(url), "inproc://c13-%d", i);
 		VH_OK(nng_dial(D[i].out, url, NULL, 0));
-		nng_device_aio(D[i].aio, D[i].in, D[i].out);
+		if (!late)
+			nng_device_aio(D[i].aio, D[i].in, D[i].out);
 	}
 	vs_settle();
 	int nfront = c->ctxs ? 1 : 2;
@@ -202,6 +212,15 @@ run_chain(void *arg)
 				    cx[j], NNG_OPT_SURVEYOR_SURVEYTIME, RECV_TMO));
 		}
 	vs_settle();
+	if (late) {
+		VH_OK(nng_socket_set_int(back, NNG_OPT_MAXTTL, c->ttl[k]));
+		for (int i = k; i >= 1; i--) {
+			VH_OK(nng_socket_set_int(D[i].in, NNG_OPT_MAXTTL, c->ttl[i - 1]));
+			VH_OK(nng_socket_set_int(D[i].out, NNG_OPT_MAXTTL, c->ttl[i - 1]));
+			nng_device_aio(D[i].aio, D[i].in, D[i].out);
+		}
+		vs_settle();
+	}
 
 	// round 1: bodies that look like backtrace words at their start;
 	// round 2: a 300 byte body and an empty one
